@@ -3,40 +3,50 @@
 (* M-layer specification of crates/storage/src/intern.rs (property C15).   *)
 (*                                                                         *)
 (* Shape of the code, one action per critical section:                     *)
-(*   slot[ty, h]     TypedShard<T>: HashMap<Compact128, Weak<T>> entry     *)
+(*   slot[ty, v]     TypedShard<T>: HashMap<Compact128, Weak<T>> entry     *)
 (*                   (0 = vacant, else the allocation the Weak points to)  *)
 (*   alloc[a]        one ArcInner: type, content, strong count; strong = 0 *)
 (*                   with a slot still pointing at it = dead Weak          *)
-(*   lock[ty, sh]    the RwLock of one shard of one TypedShard             *)
+(*   vac             the vacuum run; while it scans shard (ty, sh) it owns *)
+(*                   that shard's write lock                               *)
 (*   intern / intern_unsized (identical mechanism, they differ in the      *)
-(*   type only):  RLock -> Probe (Weak::upgrade under the read lock, read  *)
-(*   lock released) -> on miss WLock -> Recheck (entry(): upgrade again /  *)
-(*   replace dead Weak / insert into vacant; write lock released)          *)
-(*   get_from_hash:  RLock -> Probe -> Some(handle) | None                 *)
+(*   type only):  Probe = the read-locked section (Weak::upgrade) -> on    *)
+(*   miss Recheck = the write-locked section (entry(): upgrade again /     *)
+(*   replace dead Weak / insert into vacant).  A section protected by a    *)
+(*   blocking lock is ONE action (acquire, body, release): its body makes  *)
+(*   a single access to shared state, so holding the lock longer only      *)
+(*   delays other sections and makes vacuum's try_write fail, i.e. skip    *)
+(*   the shard - behaviours that exist anyway.  The window between the two *)
+(*   sections ("read miss, write lock not yet taken") is a state: pc =     *)
+(*   "recheck".                                                            *)
+(*   get_from_hash:  Probe -> Some(handle) | None                          *)
 (*   clone / drop:   strong count +1 / -1 without any lock; the content    *)
 (*                   dies at 0, the ArcInner when no Weak is left          *)
 (*   vacuum:         per (type, shard): try_write (skip when taken) ->     *)
 (*                   retain(|w| w.upgrade().is_some()): per entry an       *)
 (*                   upgrade creating a TEMPORARY strong reference and its *)
 (*                   drop as two steps (the temporary can become the last  *)
-(*                   owner) -> unlock                                      *)
+(*                   owner; clone/drop of other threads interleave) ->     *)
+(*                   unlock.  Threads cannot enter a section of a shard    *)
+(*                   that vacuum holds.                                    *)
 (*   encode session: SeenInterned: first occurrence of (type, hash) is     *)
 (*                   written inline ("src"), later ones by hash ("ref")    *)
 (*   decode:         src -> intern(value), ref -> get_from_hash(hash)      *)
 (*                   .expect(..); decoded handles stay alive until the     *)
 (*                   whole structure is decoded, then are dropped          *)
 (*                                                                         *)
-(* Deliberate deviations from the code (named here, see DESIGN 2.1):       *)
+(* Deliberate deviations from the code (see DESIGN 2.1):                   *)
 (*  - hashes are injective on Values (the code identifies values by their  *)
 (*    128-bit stable hash only; collisions are outside the property).      *)
 (*  - the outer map StableTypeID -> TypedShard (obtain_read_shard) is       *)
 (*    assumed populated; its lazy creation is double-checked the same way. *)
-(*  - a dropped allocation id may be reused at once (a real allocator may  *)
-(*    do so as well once the last Weak is gone).                           *)
+(*  - a released allocation id may be reused at once.                      *)
 (*  - "decode into a fresh interner" = decode after every source handle    *)
 (*    was dropped and vacuumed; reachable in this model.                   *)
 (*  - nested interned values (an interned struct holding handles) are not  *)
 (*    modelled; they are covered by the codec conformance cases only.      *)
+(*  - a thread's handles are a bag (which variable holds which handle is   *)
+(*    irrelevant); InternerGen.tla adds named handle variables.            *)
 (*                                                                         *)
 (* Mutation switches (Mutation = "none" is the code as it is; the others   *)
 (* exist to show that the invariants bite, used by the self-test):         *)
@@ -47,41 +57,40 @@
 (***************************************************************************)
 EXTENDS InternerObs, TLC
 
-CONSTANTS Threads,      \* set of thread ids (positive integers)
-          Types,        \* set of type ids (positive integers)
-          Values,       \* set of values (positive integers)
-          MaxHandles,   \* handle variables per thread
-          NShards,      \* shards per typed table
-          NAllocs,      \* allocation ids 1..NAllocs
+CONSTANTS Threads,      \* set of thread ids
+          Types,        \* set of type ids
+          Values,       \* set of values
+          Allocs,       \* set of allocation ids
+          MaxHandles,   \* handles a thread may hold at once
+          PerValueShard,\* TRUE: every value in a shard of its own; FALSE: one shard per type
           Mutation,
           VacuumOn,     \* BOOLEAN
-          CodecSeqs     \* set of sequences of handle-variable indices a thread may encode
+          IntAllocs,    \* TRUE: Allocs is a set of positive integers
+          CodecSeqs,    \* set of sequences over 1..MaxHandles: shapes a thread may encode
+          CodecThreads  \* the threads that encode / decode
 
-VARIABLES alloc, slot, lock, pc, op, held, sess, vac, err
+VARIABLES alloc, slot, pc, op, held, sess, vac, err
 
-vars == <<alloc, slot, lock, pc, op, held, sess, vac, err>>
+vars == <<alloc, slot, pc, op, held, sess, vac, err>>
 
-VacId == 99
 Free == [ty |-> 0, val |-> 0, strong |-> 0]
-Empty == [p |-> 0, ty |-> 0, v |-> 0]
 NoOp == [k |-> "none", ty |-> 0, v |-> 0]
 NoSess == [stream |-> <<>>, src |-> <<>>, pos |-> 0, out |-> <<>>]
 VacIdle == [pc |-> "idle", ty |-> 0, sh |-> 0, todo |-> {}, temp |-> 0]
 
-Shards == 1..NShards
-ShardOf(v) == (v % NShards) + 1
-TyKey(ty) == IF Mutation = "typeblind" THEN 1 ELSE ty
+ShardOf(v) == IF PerValueShard THEN v ELSE 1
+Shards == {ShardOf(v) : v \in Values}
+AnyType == CHOOSE ty \in Types : TRUE
+TyKey(ty) == IF Mutation = "typeblind" THEN AnyType ELSE ty
 K(ty, v) == <<TyKey(ty), v>>
-LK(ty, v) == <<TyKey(ty), ShardOf(v)>>
-TableTypes == IF Mutation = "typeblind" THEN {1} ELSE Types
+TableTypes == {TyKey(ty) : ty \in Types}
 
 Init ==
-    /\ alloc = [a \in 1..NAllocs |-> Free]
+    /\ alloc = [a \in Allocs |-> Free]
     /\ slot = [k \in TableTypes \X Values |-> 0]
-    /\ lock = [k \in TableTypes \X Shards |-> [w |-> 0, r |-> {}]]
     /\ pc = [t \in Threads |-> "idle"]
     /\ op = [t \in Threads |-> NoOp]
-    /\ held = [t \in Threads |-> [i \in 1..MaxHandles |-> Empty]]
+    /\ held = [t \in Threads |-> {}]       \* bag: set of <<handle, count>>
     /\ sess = [t \in Threads |-> NoSess]
     /\ vac = VacIdle
     /\ err = ""
@@ -100,24 +109,37 @@ DecStrong(al, sl, a) ==
 (* the Weak in a slot is dropped (entry replaced or removed)                *)
 DropWeak(al, a) == IF a # 0 /\ al[a].strong = 0 THEN [al EXCEPT ![a] = Free] ELSE al
 
-HasFree(al) == \E a \in 1..NAllocs : al[a].ty = 0
-FreshId(al) == CHOOSE a \in 1..NAllocs : al[a].ty = 0 /\ \A b \in 1..(a - 1) : al[b].ty # 0
+HasFree(al) == \E a \in Allocs : al[a].ty = 0
+(* Allocs may be a set of integers (smallest free id: cheap canonical form)  *)
+(* or of model values (then declare it symmetric).                          *)
+FreshId(al) == CHOOSE a \in Allocs : al[a].ty = 0 /\ \A b \in Allocs : (al[b].ty = 0 /\ IntAllocs) => a <= b
 
-FreeVars(t) == {i \in 1..MaxHandles : held[t][i].p = 0}
-FreeVar(t) == CHOOSE i \in FreeVars(t) : \A j \in FreeVars(t) : i <= j
+(* bags of handles                                                          *)
+BagCount(B, h) == IF \E e \in B : e[1] = h THEN (CHOOSE e \in B : e[1] = h)[2] ELSE 0
+BagAdd(B, h) == LET n == BagCount(B, h) IN (B \ {<<h, n>>}) \cup {<<h, n + 1>>}
+BagDel(B, h) == LET n == BagCount(B, h) IN
+                IF n = 1 THEN B \ {<<h, 1>>} ELSE (B \ {<<h, n>>}) \cup {<<h, n - 1>>}
+BagSet(B) == {e[1] : e \in B}
+RECURSIVE BagSize(_)
+BagSize(B) == IF B = {} THEN 0 ELSE LET e == CHOOSE x \in B : TRUE IN e[2] + BagSize(B \ {e})
+
+Room(t) == BagSize(held[t]) < MaxHandles
+
+(* vacuum owns the write lock of the shard of (ty, v)                       *)
+Locked(ty, v) == vac.pc # "idle" /\ vac.ty = TyKey(ty) /\ vac.sh = ShardOf(v)
 
 LookupOnly(o) == o.k \in {"get", "dref"}
 
-(* op for item `pos` of the stream being decoded by t                       *)
+(* op for item `pos` of the stream being decoded                            *)
 DecOp(s, pos) ==
     [k |-> IF s.stream[pos].tag = "src" THEN "dsrc" ELSE "dref",
      ty |-> s.stream[pos].ty, v |-> s.stream[pos].v]
 
 (* The running operation of t obtained the handle h (already counted in     *)
-(* alloc).  Callers assert alloc', slot', lock', vac'.                      *)
+(* alloc').                                                                 *)
 Complete(t, h) ==
     IF op[t].k \in {"intern", "get"} THEN
-        /\ held' = [held EXCEPT ![t][FreeVar(t)] = h]
+        /\ held' = [held EXCEPT ![t] = BagAdd(@, h)]
         /\ pc' = [pc EXCEPT ![t] = "idle"]
         /\ op' = [op EXCEPT ![t] = NoOp]
         /\ UNCHANGED <<sess, err>>
@@ -127,7 +149,7 @@ Complete(t, h) ==
         IN  /\ sess' = [sess EXCEPT ![t] = s2]
             /\ IF s2.pos > Len(s.stream)
                THEN pc' = [pc EXCEPT ![t] = "decfin"] /\ op' = [op EXCEPT ![t] = NoOp]
-               ELSE pc' = [pc EXCEPT ![t] = "rlock"] /\ op' = [op EXCEPT ![t] = DecOp(s, s2.pos)]
+               ELSE pc' = [pc EXCEPT ![t] = "probe"] /\ op' = [op EXCEPT ![t] = DecOp(s, s2.pos)]
             /\ UNCHANGED <<held, err>>
 
 (* A look-up found nothing alive.                                           *)
@@ -146,61 +168,43 @@ CompleteNone(t) ==
 (* operations of the threads                                                *)
 
 StartIntern(t, ty, v) ==
-    /\ pc[t] = "idle" /\ FreeVars(t) # {}
-    /\ pc' = [pc EXCEPT ![t] = "rlock"]
+    /\ pc[t] = "idle" /\ Room(t)
+    /\ pc' = [pc EXCEPT ![t] = "probe"]
     /\ op' = [op EXCEPT ![t] = [k |-> "intern", ty |-> ty, v |-> v]]
-    /\ UNCHANGED <<alloc, slot, lock, held, sess, vac, err>>
+    /\ UNCHANGED <<alloc, slot, held, sess, vac, err>>
 
 StartGet(t, ty, v) ==
-    /\ pc[t] = "idle" /\ FreeVars(t) # {}
-    /\ pc' = [pc EXCEPT ![t] = "rlock"]
-    /\ op' = [op EXCEPT ![t] = [k |-> "get", ty |-> ty, v |-> v]]
-    /\ UNCHANGED <<alloc, slot, lock, held, sess, vac, err>>
-
-(* typed_shard.read_shard(i)                                                *)
-RLock(t) ==
-    /\ pc[t] = "rlock"
-    /\ LET lk == LK(op[t].ty, op[t].v) IN
-        /\ lock[lk].w = 0
-        /\ lock' = [lock EXCEPT ![lk].r = @ \cup {t}]
+    /\ pc[t] = "idle" /\ Room(t)
     /\ pc' = [pc EXCEPT ![t] = "probe"]
-    /\ UNCHANGED <<alloc, slot, op, held, sess, vac, err>>
+    /\ op' = [op EXCEPT ![t] = [k |-> "get", ty |-> ty, v |-> v]]
+    /\ UNCHANGED <<alloc, slot, held, sess, vac, err>>
 
-(* read_shard.get(&hash).and_then(Weak::upgrade); read guard dropped        *)
+(* { let g = typed_shard.read_shard(i);                                     *)
+(*   g.get(&hash).and_then(Weak::upgrade) }                                 *)
 Probe(t) ==
     /\ pc[t] = "probe"
     /\ LET o == op[t]
            a == slot[K(o.ty, o.v)]
-           lk == LK(o.ty, o.v)
-       IN  /\ lock' = [lock EXCEPT ![lk].r = @ \ {t}]
+       IN  /\ ~Locked(o.ty, o.v)
            /\ IF Alive(alloc, a) THEN
                   /\ alloc' = [alloc EXCEPT ![a].strong = @ + 1]
                   /\ Complete(t, [p |-> a, ty |-> o.ty, v |-> o.v])
               ELSE
                   /\ alloc' = alloc
                   /\ IF LookupOnly(o) THEN CompleteNone(t)
-                     ELSE /\ pc' = [pc EXCEPT ![t] = "wlock"]
+                     ELSE /\ pc' = [pc EXCEPT ![t] = "recheck"]
                           /\ UNCHANGED <<op, held, sess, err>>
     /\ UNCHANGED <<slot, vac>>
 
-(* typed_shard.write_shard(i)                                               *)
-WLock(t) ==
-    /\ pc[t] = "wlock"
-    /\ LET lk == LK(op[t].ty, op[t].v) IN
-        /\ lock[lk].w = 0 /\ lock[lk].r = {}
-        /\ lock' = [lock EXCEPT ![lk].w = t]
-    /\ pc' = [pc EXCEPT ![t] = "recheck"]
-    /\ UNCHANGED <<alloc, slot, op, held, sess, vac, err>>
-
-(* match write_shard.entry(hash) { Occupied: upgrade or replace dead weak;  *)
-(* Vacant: insert }; write guard dropped                                    *)
+(* { let mut g = typed_shard.write_shard(i);                                *)
+(*   match g.entry(hash) { Occupied: upgrade, or replace the dead weak;     *)
+(*                         Vacant: insert } }                               *)
 Recheck(t) ==
     /\ pc[t] = "recheck"
     /\ LET o == op[t]
            k == K(o.ty, o.v)
            a == slot[k]
-           lk == LK(o.ty, o.v)
-       IN  /\ lock' = [lock EXCEPT ![lk].w = 0]
+       IN  /\ ~Locked(o.ty, o.v)
            /\ IF Mutation # "norecheck" /\ Alive(alloc, a) THEN
                   /\ alloc' = [alloc EXCEPT ![a].strong = @ + 1]
                   /\ slot' = slot
@@ -214,17 +218,17 @@ Recheck(t) ==
                       /\ Complete(t, [p |-> f, ty |-> o.ty, v |-> o.v])
     /\ UNCHANGED vac
 
-Clone(t, i) ==
-    /\ pc[t] = "idle" /\ held[t][i].p # 0 /\ FreeVars(t) # {}
-    /\ alloc' = [alloc EXCEPT ![held[t][i].p].strong = @ + 1]
-    /\ held' = [held EXCEPT ![t][FreeVar(t)] = held[t][i]]
-    /\ UNCHANGED <<slot, lock, pc, op, sess, vac, err>>
+Clone(t, h) ==
+    /\ pc[t] = "idle" /\ h \in BagSet(held[t]) /\ Room(t)
+    /\ alloc' = [alloc EXCEPT ![h.p].strong = @ + 1]
+    /\ held' = [held EXCEPT ![t] = BagAdd(@, h)]
+    /\ UNCHANGED <<slot, pc, op, sess, vac, err>>
 
-DropHandle(t, i) ==
-    /\ pc[t] = "idle" /\ held[t][i].p # 0
-    /\ alloc' = DecStrong(alloc, slot, held[t][i].p)
-    /\ held' = [held EXCEPT ![t][i] = Empty]
-    /\ UNCHANGED <<slot, lock, pc, op, sess, vac, err>>
+DropHandle(t, h) ==
+    /\ pc[t] = "idle" /\ h \in BagSet(held[t])
+    /\ alloc' = DecStrong(alloc, slot, h.p)
+    /\ held' = [held EXCEPT ![t] = BagDel(@, h)]
+    /\ UNCHANGED <<slot, pc, op, sess, vac, err>>
 
 -----------------------------------------------------------------------------
 (* encode / decode session                                                  *)
@@ -236,30 +240,36 @@ StreamOf(src) ==
         [tag |-> IF \E j \in 1..(i - 1) : SeenKey(src[j]) = SeenKey(src[i]) THEN "ref" ELSE "src",
          ty |-> src[i].ty, v |-> src[i].v]]
 
-(* Encode the structure <<held[t][items[1]], held[t][items[2]], ...>> with  *)
-(* one session.  Encoding only hashes, it does not touch the tables.        *)
-Encode(t, items) ==
-    /\ pc[t] = "idle" /\ sess[t] = NoSess
-    /\ \A i \in 1..Len(items) : held[t][items[i]].p # 0
-    /\ LET src == [i \in 1..Len(items) |-> held[t][items[i]]] IN
-        sess' = [sess EXCEPT ![t] = [stream |-> StreamOf(src), src |-> src, pos |-> 0, out |-> <<>>]]
-    /\ UNCHANGED <<alloc, slot, lock, pc, op, held, vac, err>>
+(* Encode a structure whose leaves are the handles src[1], src[2], ...      *)
+(* (held by t) with one session.  Encoding hashes only, it does not touch   *)
+(* the tables.                                                              *)
+Encode(t, src) ==
+    /\ t \in CodecThreads /\ pc[t] = "idle" /\ sess[t] = NoSess
+    /\ sess' = [sess EXCEPT ![t] = [stream |-> StreamOf(src), src |-> src, pos |-> 0, out |-> <<>>]]
+    /\ UNCHANGED <<alloc, slot, pc, op, held, vac, err>>
+
+(* the structures t can build from its handles: one handle per distinct     *)
+(* index of a shape in CodecSeqs                                            *)
+Sources(t) ==
+    {src \in UNION {[1..Len(sh) -> BagSet(held[t])] : sh \in CodecSeqs} :
+        \E sh \in CodecSeqs : Len(sh) = Len(src) /\
+            \A i, j \in 1..Len(sh) : (sh[i] = sh[j]) <=> (src[i] = src[j])}
 
 (* Start decoding the pending stream (possibly much later: the source       *)
 (* handles may have been dropped and vacuumed meanwhile).                   *)
 DecodeStart(t) ==
     /\ pc[t] = "idle" /\ sess[t] # NoSess /\ sess[t].pos = 0
     /\ sess' = [sess EXCEPT ![t].pos = 1]
-    /\ pc' = [pc EXCEPT ![t] = "rlock"]
+    /\ pc' = [pc EXCEPT ![t] = "probe"]
     /\ op' = [op EXCEPT ![t] = DecOp(sess[t], 1)]
-    /\ UNCHANGED <<alloc, slot, lock, held, vac, err>>
+    /\ UNCHANGED <<alloc, slot, held, vac, err>>
 
 (* the decoded structure is complete: compare with the source               *)
 DecFin(t) ==
     /\ pc[t] = "decfin"
     /\ err' = IF err = "" /\ ~SamePattern(sess[t].src, sess[t].out) THEN "decode_pattern" ELSE err
     /\ pc' = [pc EXCEPT ![t] = "decdrop"]
-    /\ UNCHANGED <<alloc, slot, lock, op, held, sess, vac>>
+    /\ UNCHANGED <<alloc, slot, op, held, sess, vac>>
 
 (* the decoded structure is dropped, handle by handle                       *)
 DecDrop(t) ==
@@ -272,15 +282,14 @@ DecDrop(t) ==
            /\ alloc' = alloc
            /\ sess' = [sess EXCEPT ![t] = NoSess]
            /\ pc' = [pc EXCEPT ![t] = "idle"]
-    /\ UNCHANGED <<slot, lock, op, held, vac, err>>
+    /\ UNCHANGED <<slot, op, held, vac, err>>
 
 -----------------------------------------------------------------------------
 (* vacuum (manual call or background thread): any shard, at any step        *)
 
+(* try_write succeeded (no thread is inside a section: sections are atomic) *)
 VacTry(ty, sh) ==
     /\ VacuumOn /\ vac.pc = "idle"
-    /\ lock[<<ty, sh>>].w = 0 /\ lock[<<ty, sh>>].r = {}      \* try_write succeeded
-    /\ lock' = [lock EXCEPT ![<<ty, sh>>].w = VacId]
     /\ vac' = [pc |-> "scan", ty |-> ty, sh |-> sh, temp |-> 0,
                todo |-> {v \in Values : ShardOf(v) = sh /\ slot[<<ty, v>>] # 0}]
     /\ UNCHANGED <<alloc, slot, pc, op, held, sess, err>>
@@ -298,29 +307,34 @@ VacUpgrade(v) ==
                /\ slot' = [slot EXCEPT ![k] = 0]
                /\ alloc' = DropWeak(alloc, a)
                /\ vac' = [vac EXCEPT !.todo = @ \ {v}]
-    /\ UNCHANGED <<lock, pc, op, held, sess, err>>
+    /\ UNCHANGED <<pc, op, held, sess, err>>
 
 (* ... .is_some(): the temporary strong reference is dropped                *)
 VacDropTemp ==
     /\ vac.pc = "vdrop"
     /\ alloc' = DecStrong(alloc, slot, vac.temp)
     /\ vac' = [vac EXCEPT !.pc = "scan", !.temp = 0]
-    /\ UNCHANGED <<slot, lock, pc, op, held, sess, err>>
+    /\ UNCHANGED <<slot, pc, op, held, sess, err>>
 
 VacUnlock ==
     /\ vac.pc = "scan" /\ vac.todo = {}
-    /\ lock' = [lock EXCEPT ![<<vac.ty, vac.sh>>].w = 0]
     /\ vac' = VacIdle
     /\ UNCHANGED <<alloc, slot, pc, op, held, sess, err>>
 
 VacStep == (\E v \in Values : VacUpgrade(v)) \/ VacDropTemp \/ VacUnlock
 
 -----------------------------------------------------------------------------
+(* wrappers with state-dependent choices (named so that TLC's coverage       *)
+(* report lists them)                                                       *)
+CloneStep(t) == \E h \in BagSet(held[t]) : Clone(t, h)
+DropStep(t) == \E h \in BagSet(held[t]) : DropHandle(t, h)
+EncodeStep(t) == \E src \in Sources(t) : Encode(t, src)
+
 ThreadStep(t) ==
     \/ \E ty \in Types, v \in Values : StartIntern(t, ty, v) \/ StartGet(t, ty, v)
-    \/ RLock(t) \/ Probe(t) \/ WLock(t) \/ Recheck(t)
-    \/ \E i \in 1..MaxHandles : Clone(t, i) \/ DropHandle(t, i)
-    \/ \E items \in CodecSeqs : Encode(t, items)
+    \/ Probe(t) \/ Recheck(t)
+    \/ CloneStep(t) \/ DropStep(t)
+    \/ EncodeStep(t)
     \/ DecodeStart(t) \/ DecFin(t) \/ DecDrop(t)
 
 Next ==
@@ -333,20 +347,17 @@ Spec == Init /\ [][Next]_vars
 -----------------------------------------------------------------------------
 (* invariants                                                               *)
 
-HandleRecs == {[p |-> a, ty |-> ty, v |-> v] : a \in 1..NAllocs, ty \in Types, v \in Values}
+(* every handle in the hands of a thread (held or being decoded)            *)
+HandlesOf(t) == BagSet(held[t]) \cup {sess[t].out[i] : i \in 1..Len(sess[t].out)}
+AllHandles == UNION {HandlesOf(t) : t \in Threads}
 
 TypeOK ==
-    /\ alloc \in [1..NAllocs -> [ty : Types \cup {0}, val : Values \cup {0}, strong : 0..(2 * Cardinality(Threads) * (MaxHandles + 3) + 1)]]
-    /\ slot \in [TableTypes \X Values -> 0..NAllocs]
-    /\ \A k \in DOMAIN lock : lock[k].w \in Threads \cup {0, VacId} /\ lock[k].r \subseteq Threads
-    /\ pc \in [Threads -> {"idle", "rlock", "probe", "wlock", "recheck", "decfin", "decdrop"}]
-    /\ \A t \in Threads : \A i \in 1..MaxHandles : held[t][i] \in HandleRecs \cup {Empty}
+    /\ \A a \in Allocs : alloc[a] = Free \/ (alloc[a].ty \in Types /\ alloc[a].val \in Values /\ alloc[a].strong \in Nat)
+    /\ \A k \in DOMAIN slot : slot[k] = 0 \/ slot[k] \in Allocs
+    /\ \A t \in Threads : pc[t] \in {"idle", "probe", "recheck", "decfin", "decdrop"}
+    /\ \A t \in Threads : BagSize(held[t]) <= MaxHandles
+    /\ \A h \in AllHandles : h.p \in Allocs /\ h.ty \in Types /\ h.v \in Values
     /\ err \in {"", "decode_ref_missing", "decode_pattern"}
-
-(* every handle in the hands of a thread (held or decoded)                  *)
-HandlesOf(t) == {held[t][i] : i \in {j \in 1..MaxHandles : held[t][j].p # 0}}
-                \cup {sess[t].out[i] : i \in 1..Len(sess[t].out)}
-AllHandles == UNION {HandlesOf(t) : t \in Threads}
 
 (* C15, first sentence.                                                     *)
 Canonical ==
@@ -356,30 +367,53 @@ Canonical ==
 
 (* at most one live allocation per (type, value), and the table knows it    *)
 OneLivePerValue ==
-    \A a, b \in 1..NAllocs :
+    \A a, b \in Allocs :
         (Alive(alloc, a) /\ Alive(alloc, b) /\ alloc[a].ty = alloc[b].ty /\ alloc[a].val = alloc[b].val) => a = b
 
 SlotTracksLive ==
-    \A a \in 1..NAllocs : Alive(alloc, a) => slot[K(alloc[a].ty, alloc[a].val)] = a
+    \A a \in Allocs : Alive(alloc, a) => slot[K(alloc[a].ty, alloc[a].val)] = a
 
 SlotContent ==
     \A k \in DOMAIN slot : slot[k] # 0 =>
-        alloc[slot[k]].ty # 0 /\ TyKey(alloc[slot[k]].ty) = k[1] /\ alloc[slot[k]].val = k[2]
+        alloc[slot[k]] # Free /\ TyKey(alloc[slot[k]].ty) = k[1] /\ alloc[slot[k]].val = k[2]
 
-(* reference counting is consistent: strong = handles + vacuum's temporary  *)
-RefCount(a) ==
-    LET HeldCnt(t) == Cardinality({i \in 1..MaxHandles : held[t][i].p = a})
-        OutCnt(t) == Cardinality({i \in 1..Len(sess[t].out) : sess[t].out[i].p = a})
-        RECURSIVE Sum(_)
-        Sum(S) == IF S = {} THEN 0 ELSE LET t == CHOOSE x \in S : TRUE IN HeldCnt(t) + OutCnt(t) + Sum(S \ {t})
-    IN  Sum(Threads) + (IF vac.temp = a THEN 1 ELSE 0)
+(* reference counting: strong = handles + vacuum's temporary                *)
+RECURSIVE SumOver(_, _)
+SumOver(S, a) ==
+    IF S = {} THEN 0
+    ELSE LET t == CHOOSE x \in S : TRUE
+             inHeld == LET E == {e \in held[t] : e[1].p = a} IN
+                       IF E = {} THEN 0 ELSE BagSize(E)
+             inOut == Cardinality({i \in 1..Len(sess[t].out) : sess[t].out[i].p = a})
+         IN  inHeld + inOut + SumOver(S \ {t}, a)
 
-StrongConsistent == \A a \in 1..NAllocs : alloc[a].strong = RefCount(a)
+StrongConsistent ==
+    \A a \in Allocs : alloc[a].strong = SumOver(Threads, a) + (IF vac.temp = a THEN 1 ELSE 0)
+
+(* no leak: an allocation record exists only while referenced               *)
+NoLeak == \A a \in Allocs : alloc[a] # Free => (alloc[a].strong > 0 \/ Slotted(slot, a))
+
+(* Reachability witnesses (checked NEGATED by the self-test: TLC must find   *)
+(* each of these states, i.e. the model really contains the windows the     *)
+(* property text worries about).                                            *)
+W_InsertInWindow ==      \* read miss, then another thread inserted before the write lock
+    \E t \in Threads : pc[t] = "recheck" /\ Alive(alloc, slot[K(op[t].ty, op[t].v)])
+W_DeadWeakSeen ==        \* a dead weak entry is about to be replaced
+    \E t \in Threads : pc[t] = "recheck" /\ slot[K(op[t].ty, op[t].v)] # 0
+                                       /\ ~Alive(alloc, slot[K(op[t].ty, op[t].v)])
+W_VacuumLastOwner ==     \* vacuum's temporary reference is the last owner
+    vac.temp # 0 /\ alloc[vac.temp].strong = 1
+W_VacuumRacesInsert ==   \* vacuum holds a shard while a thread waits to insert into it
+    \E t \in Threads : pc[t] = "recheck" /\ Locked(op[t].ty, op[t].v)
+W_DecodeAfterVacuum ==   \* a reference is decoded with no source handle left (fresh-interner case)
+    \E t \in Threads : pc[t] = "probe" /\ op[t].k = "dref" /\ BagSet(held[t]) = {}
+NotW1 == ~W_InsertInWindow
+NotW2 == ~W_DeadWeakSeen
+NotW3 == ~W_VacuumLastOwner
+NotW4 == ~W_VacuumRacesInsert
+NotW5 == ~W_DecodeAfterVacuum
 
 (* C15, second sentence: decoding never misses a reference and reproduces   *)
 (* values and sharing                                                       *)
 DecodeOK == err = ""
-
-LocksOK ==
-    \A k \in DOMAIN lock : lock[k].w # 0 => lock[k].r = {}
 =============================================================================
